@@ -311,7 +311,10 @@ def _child_main():
                'main_thread': chain[:10], 'case': case,
                'events': [list(e[2:5]) for e in
                           list(abortlab.CURRENT['log'].events)][:60],
-               'threads': abortlab.stacks()}}],
+               'threads': abortlab.stacks(),
+               'info': dict(abortlab.CURRENT.get('info') or {}),
+               'engine': {'fired': abortlab.lab()['engine'].fired,
+                          'target': repr(abortlab.lab()['engine'].target)}}}],
            'counters': {'schedules_run': 1, 'mode_sigint': 1, 'sigint_real': 1,
                         'aborts_performed': 1, 'runs_judged': 1,
                         'sigint_child_hangs': 1}}
